@@ -363,7 +363,7 @@ pub fn gen_rules_world(seed: u64) -> SupplyTrace {
         });
         labels.push("INSPECTION".into());
     }
-    SupplyTrace { keys, root, caller: vec![(0, 0)], clock: vec![(now, 0)], hash_seeds: vec![r.next()], arrivals: vec![r.next()], file_faults: vec![], labels, work_files, caller_json_alias: vec![], step_name: None, rel_link_dir: false, read_faults: None, fixed_mtime: false, link_dir_style: 0, work_links: vec![], tz: None, same_thread: gen::same_thread_block(seed), via_symlink: None, mem_sigdup: vec![], in_place: false, read_eio: None, alt_dir_on_odd_reps: false, concurrent: 0 }
+    SupplyTrace { keys, root, caller: vec![(0, 0)], clock: vec![(now, 0)], hash_seeds: vec![r.next()], arrivals: vec![r.next()], file_faults: vec![], labels, work_files, caller_json_alias: vec![], step_name: None, rel_link_dir: false, read_faults: None, fixed_mtime: false, mtime_backwards: false, link_dir_style: 0, work_links: vec![], tz: None, same_thread: gen::same_thread_block(seed), via_symlink: None, mem_sigdup: vec![], in_place: false, read_eio: None, alt_dir_on_odd_reps: false, concurrent: 0 }
 }
 
 pub fn run_c03(_tier: Tier, seed: u64, index: u64, scratch: &Scratch, rec: &mut RunRecord) {
